@@ -34,8 +34,9 @@ CHECKS = {
         technique="runtime monitoring: reference-model oracle on update return value, merged contents, verbatim pass-through of unselected CSV rows, later reads",
         text="For every update/update_all (db, measurement-scoped, handle; every argument subset static/callable) the return value, "
              "the full contents afterwards and the raw CSV rows of unselected points are compared with the model's documented "
-             "merge semantics; later reads attributed via a history-free twin.",
-        note="Updater callables from a fixed registry; static falsy arguments only in the all-empty (ValueError) case.",
+             "merge semantics; later reads attributed via a history-free twin; a separate pass with sequence-number callables "
+             "checks that every selected point carries the result of a call made with its own old value and no result serves two points.",
+        note="Updater callables from a fixed registry (plus the sequence-number callables); static falsy arguments only in the all-empty (ValueError) case.",
     ),
     "C04": dict(
         category="exploration", design_ref="DESIGN.md 3 C04",
